@@ -138,14 +138,18 @@ Tr_C08_status(A, B) ==
                         /\ (A.obs[o].ast # NoneT => B.obs[o].ast = A.obs[o].ast)
 (* at the beginning of an instant inside the observation exactly the       *)
 (* pipeline's demand of machines holds its ingest tasks; none afterwards   *)
-IngestHolders(X, o) == {p \in LivePids(X, "TP") : p[2] = o /\ p[3] < 0 /\ X.procs[p].started}
+(* pool-based (label-independent): the ingest pool holds the demand of every *)
+(* observation strictly inside its window; observations exactly at the end of *)
+(* their window may or may not have released yet                              *)
 Tr_C08_ingest(A, B) ==
     Boundary(A, B) =>
-      \A o \in ObsNames :
-         LET ob == A.obs[o]  d == OCfg(o).dur * K
-         IN /\ (ob.ast # NoneT /\ ob.ast < B.now /\ B.now <= ob.ast + d - K)
-               => Card(IngestHolders(A, o)) = OCfg(o).ing
-            /\ (ob.ast # NoneT /\ B.now >= ob.ast + d + K) => IngestHolders(A, o) = {}
+      LET inside == {o \in ObsNames : A.obs[o].ast # NoneT /\ A.obs[o].ast < B.now
+                                       /\ B.now <= A.obs[o].ast + OCfg(o).dur * K - K}
+          edge == {o \in ObsNames : A.obs[o].ast # NoneT /\ B.now > A.obs[o].ast + OCfg(o).dur * K - K
+                                     /\ B.now <= A.obs[o].ast + OCfg(o).dur * K}
+          lower == SumOver(inside, LAMBDA o : OCfg(o).ing)
+          upper == lower + SumOver(edge, LAMBDA o : OCfg(o).ing)
+      IN lower <= Card(A.cl.ingest) /\ Card(A.cl.ingest) <= upper
 SystemIdle(X) ==
     /\ X.cl.running = {} /\ X.cl.ingest = {} /\ X.cl.occ = {} /\ DOMAIN X.cl.idle = {}
     /\ X.sch.queue = {} /\ X.tel.use = 0 /\ X.sch.prov = 0
